@@ -207,6 +207,15 @@ fn param_lines(prefix: &str, ind: &str, names: &[String], leading_self: bool, de
 /// An import statement; for some module names (a function of the name) it sits inside a module-level
 /// `try: ... except ImportError: raise` or `if True:` block, as optional-dependency imports in real conftests do.
 fn guarded_import(w: &mut W, module: &str, stmt: &str) {
+    // `from .fast_impl_N import x` with a fallback to `.slow_impl_N` in the except branch: the import that binds is the
+    // one in the try body (the module exists)
+    if let Some(rest) = module.strip_prefix(".fast_impl_") {
+        w.ln("try:");
+        w.ln(&format!("    {}", stmt));
+        w.ln("except ImportError:");
+        w.ln(&format!("    {}", stmt.replace(&format!(".fast_impl_{}", rest), &format!(".slow_impl_{}", rest))));
+        return;
+    }
     match module.bytes().map(|b| b as usize).sum::<usize>() % 9 {
         0 => {
             w.ln("try:");
